@@ -234,8 +234,51 @@ Example C06_witness :
 Proof. vm_compute. split; reflexivity. Qed.
 Print Assumptions C06_witness.
 
-(* Observation kept visible (DESIGN 5.1 F7, outside the statement's quantifier):
-   a response with NO <Status> element passes status_ok. *)
-Example C06_absent_status_passes : status_ok None = Ok tt.
-Proof. reflexivity. Qed.
-Print Assumptions C06_absent_status_passes.
+(* The title at full strength (possible since /repo repair "fix: a response without Status is refused"):
+   whatever the message says, an identity is handed over ONLY IF the response carries a <Status> whose top-level
+   StatusCode Value is exactly the Success URN and its Version is the string "2.0" — absent <Status>, <Status>
+   without StatusCode, StatusCode without Value and every other Value are all refused. *)
+Theorem C06_identity_only_from_success_2_0 :
+  forall (A : Type) (i : verify_in) (rest : result (option A)) (a : A),
+    parse_tail (authn_verify i rest) = Ok a ->
+    version_is_20 (version i) = true /\
+    exists st sub, status i = Some st /\ st_code st = Some (Code (Some STATUS_SUCCESS) sub).
+Proof.
+  intros A i rest a H.
+  assert (Hc : verify_core i = Ok (Some tt)).
+  { unfold authn_verify in H. destruct (verify_core i) as [[[]|]|e]; cbn in H; try discriminate. reflexivity. }
+  split.
+  - destruct (version_is_20 (version i)) eqn:Hv; [reflexivity|].
+    exfalso. now apply (verify_core_version i Hv).
+  - exact (verify_core_ok_success i Hc).
+Qed.
+Print Assumptions C06_identity_only_from_success_2_0.
+
+(* the same for the logout / manage-name-id style responses (StatusResponse.verify) *)
+Theorem C06_status_response_only_from_success :
+  forall (i : verify_in), status_verify i = Ok (Some tt) ->
+    exists st sub, status i = Some st /\ st_code st = Some (Code (Some STATUS_SUCCESS) sub).
+Proof.
+  intros i H. apply verify_core_ok_success.
+  unfold status_verify in H. destruct (verify_core i) as [[[]|]|e]; try discriminate; [reflexivity|].
+  destruct (str_eqb e (s2l "AssertionError")); discriminate.
+Qed.
+Print Assumptions C06_status_response_only_from_success.
+
+(* a response with NO <Status> element at all is refused (StatusError) whenever the earlier checks pass … *)
+Theorem C06_absent_status_refused :
+  forall (A : Type) (i : verify_in) (rest : result (option A)),
+    status i = None -> (forall a, parse_tail (authn_verify i rest) <> Ok a) /\ status_verify i <> Ok (Some tt).
+Proof.
+  intros A i rest Hs. split.
+  - exact (authn_verify_not_some i rest (verify_core_absent_status i Hs)).
+  - exact (status_verify_not_some i (verify_core_absent_status i Hs)).
+Qed.
+Print Assumptions C06_absent_status_refused.
+
+(* … which was NOT so before the repair: status_ok returned True when `response.status` was None, so a validly
+   signed assertion below a Status-less response yielded its identity (found by an adversary session, round 4) *)
+Example C06_absent_status_before_fix_refuted :
+  status_ok_before_fix None = Ok tt /\ status_ok None = Err (s2l "StatusError").
+Proof. split; reflexivity. Qed.
+Print Assumptions C06_absent_status_before_fix_refuted.
